@@ -1551,6 +1551,8 @@ class Exec:
                 s.store(args[0], nv)
             return args[0]
         if op in ('operator*', 'operator->') and len(args) == 1:
+            if hasattr(a0, 'deref'):
+                return a0.deref()          # model iterator with its own dereference (e.g. a symbolic position)
             if isinstance(a0, ListIt):
                 if not (0 <= a0.i < len(a0.lst)):
                     raise Unsupported('dereference of an iterator outside its container')
